@@ -148,7 +148,7 @@ push_harness!(h_push_a32, A32x4, 256);
 // @bound one push + one drain step; capacity 512
 // @assume as h_push_zst
 push_harness!(h_push_a64, A64x8, 512);
-// @verif prop=C17,C16,C01 tier=quick timeout=900 mem=16 unwind=34 leakcheck=1
+// @verif prop=C17,C16,C01 tier=thorough timeout=900 mem=16 unwind=34 leakcheck=1
 // @enc as h_push_zst
 // @sym as h_push_zst; T = 128-aligned 128 bytes; fill level every multiple of 8 in 0..=1024
 // @bound one push + one drain step; capacity 1024
